@@ -54,6 +54,42 @@ impl XmlConverter {
         }
     }
 
+    /// Escapes character data. The escaping of the writer is turned off since
+    /// it leaves a carriage return as it is, which a parser reads as a line feed.
+    fn escape_text(s: &str) -> String {
+        let mut out = String::with_capacity(s.len());
+        for c in s.chars() {
+            match c {
+                '&' => out.push_str("&amp;"),
+                '<' => out.push_str("&lt;"),
+                '>' => out.push_str("&gt;"),
+                '\r' => out.push_str("&#xD;"),
+                _ => out.push(c),
+            }
+        }
+        out
+    }
+
+    /// Escapes an attribute value. Tabs, line feeds and carriage returns are
+    /// written as character references. A parser reads literal ones as spaces.
+    fn escape_attr(s: &str) -> String {
+        let mut out = String::with_capacity(s.len());
+        for c in s.chars() {
+            match c {
+                '&' => out.push_str("&amp;"),
+                '<' => out.push_str("&lt;"),
+                '>' => out.push_str("&gt;"),
+                '"' => out.push_str("&quot;"),
+                '\'' => out.push_str("&apos;"),
+                '\t' => out.push_str("&#x9;"),
+                '\n' => out.push_str("&#xA;"),
+                '\r' => out.push_str("&#xD;"),
+                _ => out.push(c),
+            }
+        }
+        out
+    }
+
     fn write_node<W: std::io::Write>(&self, v: &Val, w: &mut EventWriter<W>) -> ConvertResult {
         // First we determine if this is a tag or text node
         if let Val::Tuple(fs) = v {
@@ -125,6 +161,19 @@ impl XmlConverter {
             }
             if let Some(name) = name {
                 let ns_attr: String;
+                let ns_uri: String;
+                let mut attr_vals: Vec<(&str, String)> = Vec::new();
+                if let Some(attrs) = attrs {
+                    for (name, val) in attrs.iter() {
+                        if val.is_empty() {
+                            continue;
+                        }
+                        attr_vals.push((
+                            name.as_ref(),
+                            Self::escape_attr(Self::get_str_val(val.as_ref())?),
+                        ));
+                    }
+                }
                 let mut start = XmlEvent::start_element(name);
                 // The namespace declaration is written as an attribute of its own.
                 // That way the uri is escaped like any other attribute value and
@@ -133,22 +182,18 @@ impl XmlConverter {
                 // declaration when any ancestor, even one that is shadowed by
                 // now, has declared the same namespace.
                 if let Some((prefix, uri)) = ns {
+                    ns_uri = Self::escape_attr(uri);
                     if prefix.is_empty() {
                         if !uri.is_empty() {
-                            start = start.attr("xmlns", uri);
+                            start = start.attr("xmlns", ns_uri.as_str());
                         }
                     } else {
                         ns_attr = format!("xmlns:{}", prefix);
-                        start = start.attr(ns_attr.as_str(), uri);
+                        start = start.attr(ns_attr.as_str(), ns_uri.as_str());
                     }
                 }
-                if let Some(attrs) = attrs {
-                    for (name, val) in attrs.iter() {
-                        if val.is_empty() {
-                            continue;
-                        }
-                        start = start.attr(name.as_ref(), Self::get_str_val(val.as_ref())?);
-                    }
+                for (name, val) in attr_vals.iter() {
+                    start = start.attr(*name, val.as_str());
                 }
                 w.write(start)?;
                 if let Some(children) = children {
@@ -159,10 +204,10 @@ impl XmlConverter {
                 w.write(XmlEvent::end_element())?;
             }
             if let Some(text) = text {
-                w.write(XmlEvent::characters(text))?;
+                w.write(XmlEvent::characters(&Self::escape_text(text)))?;
             }
         } else if let Val::Str(s) = v {
-            w.write(XmlEvent::characters(s.as_ref()))?;
+            w.write(XmlEvent::characters(&Self::escape_text(s.as_ref())))?;
         } else {
             return Err(BuildError::new(
                 "XML nodes must be a Tuple or a string",
@@ -211,10 +256,12 @@ impl XmlConverter {
                         )
                         .to_boxed());
                     }
-                    let mut writer = EmitterConfig::new()
+                    let mut config = EmitterConfig::new()
                         .perform_indent(true)
-                        .normalize_empty_elements(false)
-                        .create_writer(w);
+                        .normalize_empty_elements(false);
+                    // We escape text and attribute values ourselves.
+                    config.perform_escaping = false;
+                    let mut writer = config.create_writer(w);
                     // first we see if we need to emit a document
                     // declaration event.
                     let version = match version {
